@@ -1464,8 +1464,12 @@ func (s *SelectStatement) RewriteRegexConditions() {
 			return e
 		}
 
-		// Handle regex-based condition.
-		rhs := be.RHS.(*RegexLiteral) // This must be a regex.
+		// Handle regex-based condition. The parser can place an arithmetic
+		// expression here (`tag =~ /re/ + 1`); leave those alone.
+		rhs, ok := be.RHS.(*RegexLiteral)
+		if !ok || rhs.Val == nil {
+			return e
+		}
 
 		vals, ok := matchExactRegex(rhs.Val.String())
 		if !ok {
